@@ -8,11 +8,14 @@ that the driver executes on `Float` and the correspondence check compares with `
 The multivariate statement is assembled per coordinate: a point with one varying coordinate is `vpre ++ s :: vpost`,
 the matching center `upre ++ a :: upost` with `vpre.length = upre.length` (every coordinate of every vector has this
 form), and `HasDerivAt … t` is the partial derivative at `s = t` with the other coordinates fixed.  Theorems named
-`…_partial` are the per-coordinate parts of the full Fréchet-derivative statement `C04_full`, which is kept as a
-`def … : Prop` (not proved: joint differentiability in all coordinates, a full matrix transform tied to the list model,
-the memory-light kernel with a full matrix).
+`…_partial` are the per-coordinate parts of the full Fréchet-derivative statement `C04_full`.  `C04_full` is PROVED for
+no transform and for a diagonal transform (`C04_full_no_transform`, `C04_full_diag`: L2, product, Lpq, sum-power; joint
+differentiability from `Lemmas/GradFull.lean`); it stays a `def … : Prop` for a full matrix transform tied to the list
+model and for the memory-light kernel, where the per-coordinate theorems and the chain rule `chain_T_full` are what is
+proved.
 -/
 import Xrfmv.Lemmas.Grad
+import Xrfmv.Lemmas.GradFull
 
 namespace Xrfmv.Props.C04
 open Xrfmv.Grad
@@ -207,7 +210,7 @@ theorem l2_term_finite (P : Params ℝ) (g : Guards P) (hq : 1 ≤ P.q) (dist δ
     |l2Factor P dist * δ| ≤ P.q / P.L ^ P.q * dist ^ (P.q - 1) :=
   l2_term_bounded P g.L_pos hq dist δ hd hδ
 
-/-! ### the full statement (not proved) -/
+/-! ### the full statement (proved for no transform and a diagonal transform, below) -/
 
 /-- Gradient vector as a continuous linear functional on `ℝⁿ`. -/
 noncomputable def gradCLM {n : ℕ} (gv : List ℝ) : (Fin n → ℝ) →L[ℝ] ℝ :=
@@ -226,7 +229,7 @@ def GeneralPosition {n : ℕ} (k : Kind) (P : Params ℝ) (T : Transform ℝ) (x
   | .light => P.eps ≤ Real.sqrt (lightSq T (List.ofFn x) (List.ofFn z))
   | _ => ∀ e : Fin n, P.eps ≤ |(applyT T (List.ofFn z)).getD e 0 - (applyT T (List.ofFn x)).getD e 0|
 
-/-- **C04, full strength (NOT proved)**: for every kernel, every admissible parameter set and transform, every set of
+/-- **C04, full strength (proved for `T = none` and `T = diag`, see `C04_full_no_transform` / `C04_full_diag`; not for a full matrix / the light kernel)**: for every kernel, every admissible parameter set and transform, every set of
 centers and coefficient row, at every point in general position the predictor `z ↦ f(z)` of the raw point is Fréchet
 differentiable and the row of the tensor returned by `fgrad` is its gradient. -/
 def C04_full : Prop :=
@@ -234,5 +237,113 @@ def C04_full : Prop :=
     Guards P → SymmTransform n T → (∀ x ∈ xs, GeneralPosition k P T x z) →
     HasFDerivAt (fun w : Fin n → ℝ => predictRow k P T (xs.map List.ofFn) c (List.ofFn w))
       (gradCLM (((fgrad k P T (xs.map List.ofFn) [List.ofFn z] [c]).headD []).headD [])) z
+
+/-- **C04, full strength without a transform (proved)**: for the L2, product, Lpq and sum-power kernels, every admissible
+parameter set, every set of centers and coefficient row, at every point of `ℝⁿ` (`n ≥ 1`) in general position the
+predictor of the raw point is Fréchet differentiable and the row of the tensor returned by `fgrad` is its gradient.
+(`C04_full` with `T = none`; joint differentiability comes from `Lemmas/GradFull.lean`: each kernel term is
+differentiable, and a differentiable function's derivative is determined by its partial derivatives, which are the
+per-coordinate theorems above.) -/
+theorem C04_full_no_transform (n : ℕ) [NeZero n] (k : Kind) (hk : k ≠ .light) (P : Params ℝ) (xs : List (Fin n → ℝ))
+    (c : List ℝ) (z : Fin n → ℝ) (g : Guards P) (hgp : ∀ x ∈ xs, GeneralPosition k P .none x z) :
+    HasFDerivAt (fun w : Fin n → ℝ => predictRow k P .none (xs.map List.ofFn) c (List.ofFn w))
+      (gradCLM (((fgrad k P .none (xs.map List.ofFn) [List.ofFn z] [c]).headD []).headD [])) z := by
+  have hp : 0 < P.p := lt_of_lt_of_le g.q_pos g.q_le_p
+  have hGP : ∀ x ∈ xs, GeneralPos k P x z := by
+    intro x hx
+    have h := hgp x hx
+    cases k with
+    | l2 => exact generalPos_of_dist P x z (by simpa [GeneralPosition, applyT] using h)
+    | light => exact absurd rfl hk
+    | prod | lpq | sumPower =>
+      refine generalPos_of_coords _ (by constructor <;> simp) P g.eps_pos g.q_pos hp x z ?_
+      intro e
+      have he := h e
+      simpa [GeneralPosition, applyT] using he
+  have key := predictor_hasFDerivAt k P g.eps_pos hp g.cmix_nonneg g.cmix_lt_one xs c z hGP
+  have hcomp : (applyT (Transform.none : Transform ℝ) ∘ List.ofFn : (Fin n → ℝ) → List ℝ) = List.ofFn := by
+    funext x; rfl
+  have hrow : ((fgrad k P .none (xs.map List.ofFn) [List.ofFn z] [c]).headD []).headD [] =
+      rowGrad (pairGrad k P) c (xs.map List.ofFn) (List.ofFn z) := by
+    cases k <;> first | exact absurd rfl hk | simp [fgrad, applyT, hcomp]
+  have hfun : (fun w : Fin n → ℝ => predictRow k P .none (xs.map List.ofFn) c (List.ofFn w)) =
+      fun w : Fin n → ℝ => fval (kval k P) c (xs.map List.ofFn) (List.ofFn w) := by
+    funext w
+    cases k <;> first | exact absurd rfl hk | simp [predictRow, applyT, hcomp]
+  rw [hfun, hrow]
+  exact key
+
+theorem applyT_diag_ofFn {n : ℕ} (τ w : Fin n → ℝ) :
+    applyT (.diag (List.ofFn τ)) (List.ofFn w) = List.ofFn fun e => w e * τ e := by
+  simp only [applyT]; exact zipWith_ofFn _ w τ
+
+theorem getD_ofFn {n : ℕ} (f : Fin n → ℝ) (e : Fin n) : (List.ofFn f).getD e 0 = f e := by
+  simp [List.getD_eq_getElem?_getD]
+
+/-- **C04, full strength with a diagonal transform (proved)**: the predictor of the raw point
+`z ↦ Σ_i c_i k(x_i ⊙ τ, z ⊙ τ)` is Fréchet differentiable at every point in general position (in transformed coordinates)
+and the row returned by `fgrad` with a vector `mat` is its gradient.  Differentiability: the no-transform predictor
+composed with the linear map `w ↦ w ⊙ τ`; partial derivatives: `predictor_diag_grad_partial`. -/
+theorem C04_full_diag (n : ℕ) [NeZero n] (k : Kind) (hk : k ≠ .light) (P : Params ℝ) (xs : List (Fin n → ℝ))
+    (c : List ℝ) (z τ : Fin n → ℝ) (g : Guards P) (hgp : ∀ x ∈ xs, GeneralPosition k P (.diag (List.ofFn τ)) x z) :
+    HasFDerivAt (fun w : Fin n → ℝ => predictRow k P (.diag (List.ofFn τ)) (xs.map List.ofFn) c (List.ofFn w))
+      (gradCLM (((fgrad k P (.diag (List.ofFn τ)) (xs.map List.ofFn) [List.ofFn z] [c]).headD []).headD [])) z := by
+  have hp : 0 < P.p := lt_of_lt_of_le g.q_pos g.q_le_p
+  -- general position of the transformed point w.r.t. the transformed centers
+  have hGP : ∀ x ∈ xs, GeneralPos k P (fun e => x e * τ e) (fun e => z e * τ e) := by
+    intro x hx
+    have h := hgp x hx
+    cases k with
+    | l2 =>
+      refine generalPos_of_dist P _ _ ?_
+      simpa [GeneralPosition, applyT_diag_ofFn] using h
+    | light => exact absurd rfl hk
+    | prod | lpq | sumPower =>
+      refine generalPos_of_coords _ (by constructor <;> simp) P g.eps_pos g.q_pos hp _ _ ?_
+      intro e
+      have he := h e
+      simpa [GeneralPosition, applyT_diag_ofFn, getD_ofFn] using he
+  have hus' : (xs.map List.ofFn).map (applyT (.diag (List.ofFn τ))) = (xs.map fun x => fun e => x e * τ e).map List.ofFn := by
+    simp only [List.map_map]
+    apply List.map_congr_left
+    intro x _
+    exact applyT_diag_ofFn τ x
+  unfold gradCLM
+  apply hasFDerivAt_of_partials
+  · -- differentiable: composition with the linear map `w ↦ w ⊙ τ`
+    have hfun : (fun w : Fin n → ℝ => predictRow k P (.diag (List.ofFn τ)) (xs.map List.ofFn) c (List.ofFn w)) =
+        (fun v : Fin n → ℝ => fval (kval k P) c ((xs.map fun x => fun e => x e * τ e).map List.ofFn) (List.ofFn v)) ∘
+          fun w : Fin n → ℝ => fun e => w e * τ e := by
+      funext w
+      cases k <;> first | exact absurd rfl hk | simp only [predictRow, Function.comp, hus', applyT_diag_ofFn]
+    rw [hfun]
+    apply DifferentiableAt.comp
+    · apply fval_differentiableAt
+      intro u hu
+      obtain ⟨x', hx', rfl⟩ := List.mem_map.1 hu
+      obtain ⟨x, hx, rfl⟩ := List.mem_map.1 hx'
+      exact kval_differentiableAt k P g.eps_pos g.cmix_nonneg g.cmix_lt_one _ _ (hGP x hx)
+    · fun_prop
+  · intro e
+    have hlen : ((List.ofFn z).take e).length = (e : ℕ) := by
+      simp only [List.length_take, List.length_ofFn]; have := e.isLt; omega
+    have hτs := ofFn_split τ e
+    have hmain := predictor_diag_grad_partial k hk P g ((List.ofFn z).take e) ((List.ofFn z).drop (e + 1))
+      ((List.ofFn τ).take e) ((List.ofFn τ).drop (e + 1)) (z e) (τ e) c (xs.map List.ofFn)
+      (by simp only [List.length_take, List.length_ofFn]) (by simp only [List.length_drop, List.length_ofFn])
+      (by
+        rw [← hτs, ← ofFn_split z e, hus']
+        intro u hu
+        obtain ⟨x', hx', rfl⟩ := List.mem_map.1 hu
+        obtain ⟨x, hx, rfl⟩ := List.mem_map.1 hx'
+        refine ⟨(List.ofFn fun e => x e * τ e).take e, x e * τ e, (List.ofFn fun e => x e * τ e).drop (e + 1),
+          ofFn_split (fun e => x e * τ e) e, ?_, ?_, ?_⟩
+        · simp only [List.length_take, List.length_ofFn]
+        · simp only [List.length_drop, List.length_ofFn]
+        · rw [applyT_diag_ofFn]; exact hGP x hx e)
+    rw [← hτs, ← ofFn_split z e, hlen] at hmain
+    refine hmain.congr_of_eventuallyEq ?_
+    filter_upwards with s
+    rw [ofFn_update]
 
 end Xrfmv.Props.C04
